@@ -25,6 +25,8 @@ type Call struct {
 	Version uint64
 	SubVers map[channel.ID]uint64
 	Err     string
+	// Idle: the call was refused only because it would not have changed anything (strict mode).
+	Idle bool
 	// OnBehalf is set by the harness for calls it makes itself (the adversary).
 	Adversary bool
 	// Stamp orders the call among other harness-observed events (see Ledger.Stamp).
@@ -87,6 +89,7 @@ type Ledger struct {
 	waits      []WaitRecord
 	deliveries []DeliveryRecord
 	hold       func(cause Call, e channel.AdjudicatorEvent) bool
+	refuseIdle bool
 	held       []heldEvent
 	cause      Call // the call being executed (valid while l.mu is held by Register/Withdraw)
 	// Complaints are things a ledger call did that an honest client must never do
@@ -696,10 +699,17 @@ func (a *Adjudicator) Register(_ context.Context, req channel.AdjudicatorReq, su
 	err := l.register(req, subs)
 	if err != nil {
 		call.Err = err.Error()
+		call.Idle = err == errIdle
 	}
 	l.logCall(call)
 	return err
 }
+
+var errIdle = fmt.Errorf("nothing to register: every given state is registered already or its channel is concluded")
+
+// RefuseIdleRegistrations makes the ledger refuse, like adjudicators that only accept refutations,
+// a Register call that would change nothing (same versions as registered, or concluded channels).
+func (l *Ledger) RefuseIdleRegistrations() { l.mu.Lock(); l.refuseIdle = true; l.mu.Unlock() }
 
 func (l *Ledger) register(req channel.AdjudicatorReq, subs []channel.SignedState) error {
 	if req.Tx.State == nil {
@@ -781,6 +791,9 @@ func (l *Ledger) register(req channel.AdjudicatorReq, subs []channel.SignedState
 			}
 			updates = append(updates, upd{c, s})
 		}
+	}
+	if l.refuseIdle && len(updates) == 0 {
+		return errIdle
 	}
 	for _, u := range updates {
 		to := l.clock + int64(u.s.Params.ChallengeDuration)
